@@ -120,6 +120,7 @@ def gen_schema_x(rng, idx, max_depth=3, defaults=True, top_mand=0.25, uniques=0.
             n.max = rng.choice([2, 3, 4])
             if n.min > n.max:
                 n.min = n.max
+            n.dflts = n.dflts[:n.max]       # libyang does not check the number of defaults against max-elements
         return n
 
     def inner_kids(depth, config, in_case=False):
@@ -396,13 +397,13 @@ BAD_VALUES = {"int8": [b"128", b"-129", b"x"], "uint8": [b"256", b"-1", b"1x"], 
               "boolean": [b"TRUE", b"1", b"yes"], "empty": [b"x"]}
 
 MUTATIONS = ["drop-mandatory", "drop-choice", "below-min", "above-max", "dup-key", "dup-leaflist", "dup-leaf", "dup-container",
-             "second-case", "unique", "bad-value", "state-node"]
+             "second-case", "unique", "bad-value", "missing-key", "state-node"]
 
 # what libyang must report for each mutation: (error kind, RFC 7950 section 15 error-app-tag | None)
 EXPECT = {"drop-mandatory": ("NoMand", None), "drop-choice": ("NoMandChoice", "missing-choice"), "below-min": ("NoMin", "too-few-elements"),
           "above-max": ("NoMax", "too-many-elements"), "dup-key": ("Dup", None), "dup-leaflist": ("Dup", None), "dup-leaf": ("Dup", None),
           "dup-container": ("Dup", None), "second-case": ("DupCase", None), "unique": ("NoUniq", "data-not-unique"),
-          "bad-value": ("BadValue", None), "state-node": ("UnexpState", None)}
+          "bad-value": ("BadValue", None), "missing-key": ("NoKey", None), "state-node": ("UnexpState", None)}
 
 
 class Mutator:
@@ -617,6 +618,14 @@ class Mutator:
             return None
         p, sibs, x = self.rng.choice(cand)
         x.val = b"nosuchenum" if x.sn.ty.name == "enumeration" else self.rng.choice(BAD_VALUES[x.sn.ty.name])
+        return {"sid": x.sn.sid}
+
+    def m_missing_key(self, f):
+        cand = [x for p, sk, sibs in levels(self.s, f) for x in sibs if x.sn.kind == "list" and x.sn.keys]
+        if not cand:
+            return None
+        x = self.rng.choice(cand)
+        del x.kids[self.rng.randrange(len(x.sn.keys))]
         return {"sid": x.sn.sid}
 
     def m_state_node(self, f):
